@@ -202,7 +202,7 @@ theorem esNameChar_plain {a : Nat} (rest : List Nat) (hbs : a ≠ 0x5C) (ha : Pa
   · rename_i heq; cases heq
 
 /-- What a checked name character consumes is neutral for the scanners (in both modes). -/
-theorem ckE_neutral (F : Feat) (m : Bool) {P : Nat → Bool} (hP : ∀ c, P c = true → Plain c) {s : List Nat}
+theorem ckE_neutral (F : Feat) (m : Nat) {P : Nat → Bool} (hP : ∀ c, P c = true → Plain c) {s : List Nat}
     {c : Nat} {r : List Nat} (hs : AllChar s) (h : ckE P s = some (c, r)) :
     ∃ t, s = t ++ r ∧ NeutralM F m t := by
   unfold ckE at h
@@ -326,7 +326,7 @@ theorem nameLoop_sim : ∀ (fe : Nat) (s acc : List Nat), acc ≠ [] → AllChar
           obtain ⟨c, r⟩ := p
           simp only
           have hlen := ckE_len hck
-          obtain ⟨p, hp, _⟩ := ckE_neutral ⟨false, false, false⟩ false (fun c h => isIdPart_plain tabs h) hch hck
+          obtain ⟨p, hp, _⟩ := ckE_neutral { e := false, k := false } 0 (fun c h => isIdPart_plain tabs h) hch hck
           have hchr : AllChar r := by rw [hp] at hch; exact hch.append_right
           have := ih r (c :: acc) (by simp) hchr (by simp only [List.length_cons] at hfe hlen; omega) fc' orig
             (by simp only [List.length_cons] at hfc hlen; omega)
@@ -367,14 +367,14 @@ theorem groupName_sim (r : List Nat) (hch : AllChar r) :
       obtain ⟨c, r'⟩ := p
       simp only
       have hlen := ckE_len hck
-      obtain ⟨p, hp, _⟩ := ckE_neutral ⟨false, false, false⟩ false (fun c h => isIdStart_plain tabs h) hch hck
+      obtain ⟨p, hp, _⟩ := ckE_neutral { e := false, k := false } 0 (fun c h => isIdStart_plain tabs h) hch hck
       have hchr : AllChar r' := by rw [hp] at hch; exact hch.append_right
       have := nameLoop_sim r.length r' [c] (by simp) hchr hlen (r'.length + 1) r (by omega)
       simpa using this
 
 
 /-- What a group name (up to its `>`) consumes is neutral for the scanners. -/
-theorem gnGo_neutral (F : Feat) (m : Bool) (t : Tabs) : ∀ (fuel : Nat) (s acc nm r1 : List Nat), AllChar s →
+theorem gnGo_neutral (F : Feat) (m : Nat) (t : Tabs) : ∀ (fuel : Nat) (s acc nm r1 : List Nat), AllChar s →
     groupNameGo t fuel s acc = some (nm, r1) → ∃ p, s = p ++ 0x3E :: r1 ∧ NeutralM F m p := by
   intro fuel
   induction fuel with
@@ -403,7 +403,7 @@ theorem gnGo_neutral (F : Feat) (m : Bool) (t : Tabs) : ∀ (fuel : Nat) (s acc 
         obtain ⟨p2, hp2, hn2⟩ := ih r' _ nm r1 hchr h
         exact ⟨t1 ++ p2, by rw [ht1, hp2]; simp, neutralM_append hn1 hn2⟩
 
-theorem groupName_neutral (F : Feat) (m : Bool) (t : Tabs) {r nm r1 : List Nat} (hch : AllChar r)
+theorem groupName_neutral (F : Feat) (m : Nat) (t : Tabs) {r nm r1 : List Nat} (hch : AllChar r)
     (h : groupName t r = some (nm, r1)) : ∃ p, r = p ++ 0x3E :: r1 ∧ NeutralM F m p :=
   gnGo_neutral F m t _ r [] nm r1 hch h
 
@@ -419,7 +419,7 @@ theorem namedAhead_lt (r0 : List Nat) (hch : AllChar r0) :
 /-- The whole of `<name>` is neutral outside a class. -/
 theorem name_neutral (F : Feat) {r0 nm r1 : List Nat} (hch : AllChar r0)
     (h : groupName tabs r0 = some (nm, r1)) : ∃ p, 0x3C :: r0 = p ++ r1 ∧ Neutral F p := by
-  obtain ⟨p, hp, hn⟩ := groupName_neutral F false tabs hch h
+  obtain ⟨p, hp, hn⟩ := groupName_neutral F 0 tabs hch h
   refine ⟨0x3C :: (p ++ [0x3E]), by rw [hp]; simp, ?_⟩
   have h1 : Neutral F [0x3C] := neutral_plain F (by refine ⟨?_, ?_, ?_, ?_, ?_⟩ <;> decide)
   have h2 : Neutral F [0x3E] := neutral_plain F (by refine ⟨?_, ?_, ?_, ?_, ?_⟩ <;> decide)
